@@ -1,14 +1,131 @@
 //! C17 -- acknowledgements account for every received byte (refinement against AckModel):
-//! World D (two real sessions announcing their configured windows to each other) and Worlds
-//! E / F (scripted peers announcing windows: small W exhaustively, re-announcements mid-stream).
+//! World D (two real sessions announcing their configured windows to each other), Worlds
+//! E / F (scripted peers announcing windows: small W exhaustively, re-announcements mid-stream),
+//! and a few long-haul runs per batch (one session receiving more than 4 GiB, so that windows
+//! near 2^31 / 2^32 are actually reached and total byte counts pass 2^32).
 
-use crate::engine::{Ctx, RunResult};
+use crate::engine::{Ctx, RunResult, Violation};
+use crate::refs::chunk::{RefChunkEncoder, RefMsg};
+use crate::refs::msg;
+use crate::worlds::sess::{CliNode, NodeClock, SrvNode};
 use crate::worlds::{d, e, f};
+use rml_rtmp::sessions::{ClientSessionConfig, ServerSessionConfig};
+
+const LONG_HAUL_EVERY: u64 = 20_000;
 
 pub fn run(ctx: &mut Ctx) -> RunResult {
+    if ctx.run_index % LONG_HAUL_EVERY == 7 {
+        return long_haul(ctx);
+    }
     match ctx.run_index % 3 {
         0 => d::run(ctx, d::DMode::C17),
         1 => e::run(ctx, e::EMode::C17),
         _ => f::run(ctx, f::FMode::C17),
     }
+}
+
+enum Node {
+    S(SrvNode),
+    C(CliNode),
+}
+
+impl Node {
+    fn feed(&mut self, ctx: &mut Ctx, bytes: &[u8]) -> Result<bool, Violation> {
+        // Ok(true) = call succeeded, Ok(false) = session returned Err (closed)
+        match self {
+            Node::S(n) => Ok(n.handle_input(ctx, bytes)?.is_ok()),
+            Node::C(n) => Ok(n.handle_input(ctx, bytes)?.is_ok()),
+        }
+    }
+    fn acks(&self) -> u64 {
+        match self {
+            Node::S(n) => n.c.ack.acks_seen,
+            Node::C(n) => n.c.ack.acks_seen,
+        }
+    }
+}
+
+/// One session, one announced window, more than 4 GiB of valid input in 1 MiB calls.
+fn long_haul(ctx: &mut Ctx) -> RunResult {
+    ctx.world("long-haul");
+    ctx.step_cap = 20_000;
+    let stratum = ctx.run_index / LONG_HAUL_EVERY;
+    let server = stratum % 2 == 0;
+    let w: u32 = match (stratum / 2) % 5 {
+        0 => 0xFFFF_FFFF,
+        1 => 3_000_000_000,
+        2 => 0x8000_0001,
+        3 => 2_500_000,
+        _ => *ctx.ch.pick("op.arg.win", &[0x7FFF_FFFFu32, 0x8000_0000, 0xFFFF_FFFE, 1_000_000_000, 4_000_000_000]),
+    };
+    ctx.tr(|| format!("  long haul: {} session, window {}", if server { "server" } else { "client" }, w));
+    ctx.sched(0, server as u64, w as u64);
+    ctx.nontrivial = true;
+    crate::worlds::install_amf_order(0);
+    let mut node = if server {
+        match SrvNode::new(ctx, ServerSessionConfig::new(), 2, NodeClock::new(0)) {
+            Ok((mut n, _)) => {
+                n.c.check_ack = true;
+                Node::S(n)
+            }
+            Err((_, e)) => return Err(Violation::new("C17/session/constructor-error", e.to_string())),
+        }
+    } else {
+        match CliNode::new(ctx, ClientSessionConfig::new(), 1, NodeClock::new(0)) {
+            Ok(mut n) => {
+                n.c.check_ack = true;
+                Node::C(n)
+            }
+            Err(e) => return Err(Violation::new("C17/session/constructor-error", e.to_string())),
+        }
+    };
+    let mut enc = RefChunkEncoder::new();
+    let mut setup = Vec::new();
+    let scs = msg::set_chunk_size(0, 0x7FFF_FFFF);
+    enc.encode_message(&mut setup, 2, &scs, 0);
+    enc.chunk_size = 0x7FFF_FFFF;
+    let wa = msg::window_ack(0, w);
+    enc.encode_message(&mut setup, 2, &wa, 1);
+    if !node.feed(ctx, &setup)? {
+        return Ok(());
+    }
+    // bulk: an aggregate message (type 22) is valid input for either session in any state
+    let size = 1usize << 20;
+    let bulk = RefMsg { type_id: 22, msid: 1, ts: 0, payload: vec![0u8; size] };
+    let mut first = Vec::new();
+    enc.encode_message(&mut first, 6, &bulk, 0);
+    let mut next = Vec::new();
+    let f = enc.best_format(6, &bulk);
+    enc.encode_message(&mut next, 6, &bulk, f);
+    let total_target: u64 = (1u64 << 32) + (1u64 << 27) + ctx.ch.draw("op.arg.extra", 1 << 27);
+    let mut fed: u64 = setup.len() as u64;
+    let mut calls = 0u64;
+    if !node.feed(ctx, &first)? {
+        return Ok(());
+    }
+    fed += first.len() as u64;
+    while fed < total_target {
+        if !ctx.step() {
+            break;
+        }
+        // mostly whole messages; sometimes a message split over two calls
+        if ctx.ch.chance("link.seg", 1, 64) {
+            let cut = 1 + ctx.ch.draw("link.len", (next.len() - 1) as u64) as usize;
+            if !node.feed(ctx, &next[..cut])? || !node.feed(ctx, &next[cut..])? {
+                return Ok(());
+            }
+        } else if !node.feed(ctx, &next)? {
+            return Ok(());
+        }
+        fed += next.len() as u64;
+        calls += 1;
+    }
+    ctx.ev(170, fed, node.acks());
+    ctx.probe("c17.long_haul_run");
+    ctx.probe_n("c17.long_haul_gib_fed", fed >> 30);
+    if fed > u32::MAX as u64 {
+        ctx.probe("c17.long_haul_total_past_2^32");
+    }
+    let _ = calls;
+    Ok(())
 }
